@@ -204,6 +204,15 @@ off_t __wrap_lseek64(int fd, off_t off, int wh) { return __wrap_lseek(fd, off, w
 int __wrap_ftruncate(int fd, off_t len) {
     const char *c = klass(fd);
     if(c) {
+        long kf = count(c, "ftrunc");
+        struct fault *f = match(c, "ftrunc", kf);
+        if(f) {
+            zh_log("{\"ev\":\"io\",\"INJECTED\":%d,\"sys\":\"ftrunc\",\"cls\":\"%s\",\"k\":%ld,\"ret\":-1}", f->kind, c, kf);
+            errno = fault_errno(f->kind);
+            return -1;
+        }
+    }
+    if(c) {
         if(wcls[0] && !strcmp(c, wcls)) { if(io_oob_count++ < 5) zh_log("{\"ev\":\"oob_write\",\"cls\":\"%s\",\"via\":\"ftruncate\",\"len\":%lld}", c, (long long)len); }
         count(c, "ftruncate");
         zh_log("{\"ev\":\"io\",\"sys\":\"ftruncate\",\"cls\":\"%s\",\"len\":%lld}", c, (long long)len);
